@@ -25,12 +25,31 @@ A case is a slot setting and a list of ops, each preceded by a virtual delay:
                              more) requests a cycle: the cycle runs while abort waits for the task it cancelled
   optional case key 'net': {'reply_delay': d}   the server's answer to AddUser takes d s of virtual time (None: never
                              arrives); such cases are monitor-only (the model settles tracking within the step)
+  optional case key 'disk': {'delays': [d, ...], 'lookup': [d, ...]}   a slow file system / busy executor
+                             (`vlib/slowdisk.py`): the i-th call the library hands to the executor (aiofiles exists /
+                             getsize / open / read / close / remove ...) takes delays[i % n] s of virtual time, the i-th
+                             look-up of the shares manager lookup[i % m] s (default: like `delays`; 0 = one loop
+                             iteration); whatever a task has decided but not yet recorded stays unrecorded that long.
+                             Monitor-only (the model has no file system).
+
+  optional case key 'notice': True   the peer is hard to reach for anything but the transfer itself: the report of a broken
+                             upload (`PeerUploadFailed`, sent by the upload's task after it made the upload FAILED) needs a
+                             connection that is slow; the task lingers until ['notice', k, 'ok'|'fail', dt] ends the
+                             attempt (delivered / connection failed).  Meanwhile the peer may queue the file again.
+                             Model ops: `breakX k` (a `failX` that breaks a transfer in such a case), `noticeEnd k 0|1`.
+
+The schedule's ops about the PEER's side (`started`, `failX`, `backToQueue`, `finish`) go by where the upload's task
+waits on the network (its gate), not by the state the client shows for the upload: what a peer answers does not depend on
+the uploader's bookkeeping.  (On the pinned tree a task waits at the `send` gate only while INITIALIZING.)
 
 Management cycles are NOT scripted: the real job decides when it runs (coalescing queue of size 1,
 0.05 s minimum interval); the harness only chooses the instants of the other events (including
 instants that coincide with the job's timer, so that an op lands between a scheduling decision and
 the state change that records it).  Every real cycle is logged where it happened and is fed to the
-Lean driver as a `cycle` op at the same position of the op sequence.
+Lean driver as a `cycle` op at the same position of the op sequence; every real QUEUED -> INITIALIZING of an upload
+(the first step of the task a cycle created: the decision is recorded) is fed as `record k` where it happened.  The
+model keeps decision and record apart; its schedule theorems assume that no cycle is served in between (`Timely`):
+the driver answers `untimely` to such a cycle and the rig reports it (granularity) on every real cycle.
 """
 from __future__ import annotations
 
@@ -44,7 +63,7 @@ from vlib.common import KResult, Violation, Disagreement, Property
 
 STATUSES = ['UNKNOWN', 'OFFLINE', 'AWAY', 'ONLINE']
 STAGES = ['send-conn', 'send-write', 'conn', 'ticket', 'offset']
-TASK_OPS = ('started', 'finish', 'failX', 'backToQueue')
+TASK_OPS = ('started', 'finish', 'failX', 'backToQueue', 'notice')
 API_OPS = ('abort', 'addUpload', 'requeue', 'apiQueue', 'setUser', 'setSlots')
 DOC_QUEUE_STATES = ('ABORTED', 'PAUSED', 'COMPLETE', 'INCOMPLETE', 'FAILED')
 PROCESSING = ('INITIALIZING', 'UPLOADING', 'DOWNLOADING')
@@ -115,6 +134,9 @@ async def _perform(rig, body: list) -> str:
         return 'refused'
     t = rig.transfers[k]
     st = t.state.VALUE.name
+    if kind == 'notice':
+        # the connection attempt for the oldest pending failure report about upload k ends
+        return 'ok' if rig.release_aux(k, 'ok' if body[2] == 'ok' else 'fail-conn') else 'refused'
     if kind == 'abort':
         try:
             await mgr.abort(t)
@@ -139,28 +161,32 @@ async def _perform(rig, body: list) -> str:
     g = rig.current_gate(k)
     at = g.blocked_at() if g is not None else None
     if kind == 'started':
-        if st != 'INITIALIZING' or at != 'send':
+        if at != 'send':
             return 'refused'
         for stage, out in (('reply', 'allow'), ('conn', 'ok'), ('ticket', 'ok'), ('offset', 'ok'), ('send', 'ok')):
             g.set(stage, out)
         return 'ok'
+    # slow file system: an upload that is UPLOADING may still be opening the file; the peer's side of the transfer (the
+    # schedule) is decided now, the task meets it when it gets there
+    opening = (getattr(rig, 'disk', None) is not None and st == 'UPLOADING' and g is not None and at is None
+               and 'file' not in g.reached)
     if kind == 'finish':
-        if st != 'UPLOADING' or at != 'file':
+        if at != 'file' and not opening:
             return 'refused'
         g.set('file', 'ok')
         return 'ok'
     if kind == 'failX':
-        if st == 'INITIALIZING' and at == 'send':
+        if at == 'send':
             g.set('reply', 'deny')
             g.set('send', 'ok')
             return 'ok'
-        if st == 'UPLOADING' and at == 'file':
+        if at == 'file' or opening:
             g.set('file', 'fail')
             return 'ok'
         return 'refused'
     if kind == 'backToQueue':
         stage = body[2]
-        if st != 'INITIALIZING' or at != 'send':
+        if at != 'send':
             return 'refused'
         plan = {'send-conn': [('send', 'fail-conn')], 'send-write': [('send', 'fail-write')],
                 'conn': [('reply', 'allow'), ('conn', 'fail'), ('send', 'ok')],
@@ -193,24 +219,82 @@ def _uidx(name: str) -> int:
     return int(name[len('user'):])
 
 
+def _mark(t) -> str:
+    """`*`: QUEUED upload with a running task (a cycle chose it and the decision is not recorded yet, or an earlier task
+    of it lingers); `~`: FAILED upload whose task lingers (it reports the failure)"""
+    if not t.is_upload() or t._transfer_task is None or t._transfer_task.done():
+        return ''
+    return {'QUEUED': '*', 'FAILED': '~'}.get(t.state.VALUE.name, '')
+
+
+class _DiskShares:
+    """the rig's shares stub behind a slow file system: every look-up asks the disk (the real shares manager stats the
+    file through the executor), so it takes as long as the disk takes"""
+
+    def __init__(self, inner, loop, delays):
+        self._inner = inner
+        self._loop = loop
+        self._delays = list(delays)
+        self._n = 0
+
+    def __getattr__(self, name):
+        return getattr(self._inner, name)
+
+    async def _disk(self):
+        d = self._delays[self._n % len(self._delays)]
+        self._n += 1
+        await asyncio.sleep(d)          # sleep(0) yields once: the shortest real suspension
+
+    async def get_shared_item(self, remote_path, username=None):
+        await self._disk()
+        return await self._inner.get_shared_item(remote_path, username)
+
+    async def find_shared_item(self, remote_path, username=None):
+        await self._disk()
+        return await self._inner.find_shared_item(remote_path, username)
+
+
 def _snap(rig) -> str:
     # held() collects garbage first: a `User` object nothing refers to any more but a reference cycle (the frames of a
     # cancelled tracking task) would otherwise still answer `get_user_object` until the collector happens to run
     held = sorted((_uidx(n), v) for n, v in rig.held().items() if n.startswith('user'))
     _, ups = rig.mgr._get_queued_transfers()
     q = ','.join(str(rig.k_of(t)) for t in ups) or '-'
-    ents = ' '.join(f'{i}:{s}' for i, s in enumerate(rig.states()))
+    ents = ' '.join(f'{i}:{t.state.VALUE.name}' + _mark(t) for i, t in enumerate(rig.transfers))
     known = ','.join(f'{u}:{st}/{int(pr)}' for u, (st, pr) in held) or '-'
     return f"p={1 if rig.pending() else 0} slots={rig.mgr.get_upload_slots()} q={q} known={known} | {ents}"
 
 
-def _run_impl(case: dict) -> dict:
+def _rig_class():
     from vlib.trackrig import TrackedRig
+
+    class Rig05(TrackedRig):
+        def cycle_info(self) -> dict:
+            info = super().cycle_info()
+            # transfers in the middle of a state change (abort / pause waiting for the task it cancelled): the scheduler
+            # leaves them alone, the transition requests a cycle when it completes (manager.py:650-656)
+            info['locked'] = [self.k_of(t) for t in self.mgr.transfers if t._state_lock.locked()]
+            return info
+
+    return Rig05
+
+
+def _run_impl(case: dict) -> dict:
+    TrackedRig = _rig_class()
 
     async def main(loop):
         rig = TrackedRig(loop, case['slots'], reply_delay=(case.get('net') or {}).get('reply_delay', 0.0))
+        rig.disk = None
+        if case.get('notice'):
+            rig.aux_gates = True        # in this harness: PeerUploadFailed only (nothing else that names a file is sent)
+        if case.get('disk'):
+            from vlib.slowdisk import SlowDisk
+            rig.disk = SlowDisk(loop, case['disk']['delays']).install()
+            rig.shares = rig.mgr._shares_manager = _DiskShares(rig.shares, loop,
+                                                               case['disk'].get('lookup') or case['disk']['delays'])
         await rig.mgr.start()
         await simloop.settle()
+        inexact: list = []
         marks = []            # per entry: (log index before, log index after, snapshot)
         mark = 0
         ops = case['ops']
@@ -220,8 +304,23 @@ def _run_impl(case: dict) -> dict:
                 await asyncio.sleep(dt)          # no settle: the op may land inside the iteration of a cycle
             if body[0] in TASK_OPS:
                 await simloop.settle()
+            if (body[0] in ('abort', 'abortRace') and body[1] < len(rig.transfers) and _mark(rig.transfers[body[1]])
+                    and case.get('notice')):
+                # the abort cancels a lingering task and waits for it while it holds the state lock: the end of that task
+                # can request a cycle that runs in the middle of the abort and leaves the locked upload alone — two steps
+                # the model (abort = one step, no lock) does not tell apart: the case is judged by the monitor only
+                inexact.append(f'abort of upload {body[1]} while an earlier task of it lingers')
             if body[0] == 'abortRace':
                 await _abort_race(rig, body[1])
+            elif case.get('notice') and body[0] in ('failX', 'notice'):
+                # model lines of their own: a transfer that breaks leaves its task reporting the failure
+                k = body[1]
+                breaks = (body[0] == 'failX' and k < len(rig.transfers)
+                          and rig.transfers[k].state.VALUE.name == 'UPLOADING')
+                line = (f'noticeEnd {k} {int(body[2] == "ok")}' if body[0] == 'notice'
+                        else f'breakX {k}' if breaks else f'failX {k}')
+                res = await _perform(rig, body)
+                rig.log.append(('opline', line, res))
             else:
                 res = await _perform(rig, body)
                 rig.log.append(('op', i, res))
@@ -232,16 +331,48 @@ def _run_impl(case: dict) -> dict:
             mark = len(rig.log)
         await asyncio.sleep(1.0)
         await simloop.settle()
+        if rig.disk is not None:
+            # on a slow disk things are still going on (an upload reads its file): the case ends with a full second in
+            # which nothing happened and no call is with the executor
+            for _ in range(12):
+                n = len(rig.log)
+                if rig.disk.pending == 0:
+                    await asyncio.sleep(1.0)
+                    await simloop.settle()
+                    if len(rig.log) == n and rig.disk.pending == 0:
+                        break
+                else:
+                    await asyncio.sleep(0.5)
+                    await simloop.settle()
         marks.append((mark, len(rig.log), _snap(rig)))
         final_pending = rig.pending()
+        final_running = [k for k, t in enumerate(rig.transfers)
+                         if t._transfer_task is not None and not t._transfer_task.done()]
         end = loop.time()
         await rig.stop()
         return {'log': [list(e) for e in rig.log], 'marks': marks, 'granularity': rig.granularity,
-                'final_pending': final_pending, 'times': list(rig.log.times), 'end': end}
+                'final_pending': final_pending, 'final_running': final_running, 'times': list(rig.log.times), 'end': end,
+                'inexact': inexact}
 
     res, loop = simloop.run(main)
     res['loop_exceptions'] = [e for e in loop.exceptions if e.get('type') not in (None, 'CancelledError')]
     return res
+
+
+def _untimely(impl: dict) -> list:
+    """The hypothesis `Timely` of the schedule theorems on the real trace: cycles that were served while an upload an
+    EARLIER cycle had chosen (task created) was still QUEUED with that task running (decision not recorded)."""
+    out = []
+    chosen: set = set()
+    for e in impl['log']:
+        if e[0] == 'state':
+            chosen.discard(e[1])
+        elif e[0] == 'cycle':
+            late = [k for k in e[2].get('inflight', []) if k in chosen]
+            if late:
+                out.append(('cycle-served-between-decision-and-record', late))
+            chosen |= {k for kind, k in e[1] if kind == 'T'}
+    return out
 
 
 def _eval_case(case):
@@ -279,6 +410,8 @@ def _script(case: dict, impl: dict) -> tuple[list[str], list[str]]:
     server told the client and every real cycle is a model line at the position where it happened."""
     lines, obs = [], []
     log = impl['log']
+    ups = {e[1] for e in log if e[0] == 'add' and e[3] == 'U'}
+    ups |= {k for e in log if e[0] == 'cycle' for k, _u, d, _st in e[2]['xs'] if d == 'U'}
     for (a, b, snap) in impl['marks']:
         n0 = len(lines)
         for e in log[a:b]:
@@ -289,6 +422,9 @@ def _script(case: dict, impl: dict) -> tuple[list[str], list[str]]:
             elif e[0] == 'opline':
                 lines.append(e[1])
                 obs.append(f'op {e[2]}')
+            elif e[0] == 'state' and e[1] is not None and e[2] == 'QUEUED' and e[3] == 'INITIALIZING' and e[1] in ups:
+                lines.append(f'record {e[1]}')          # the first step of the task a cycle created
+                obs.append('op ok')
             elif e[0] == 'friend':
                 lines.append(f'friend {_uidx(e[1])} {int(e[2])}')
                 obs.append('op ok')
@@ -340,7 +476,9 @@ def _model_obs(lines: list[str], out: list[str], obs: list[str]) -> list[str]:
         r = toks[0]
         kv = dict(t.split('=', 1) for t in toks[1:])
         s = f"cycle sel={kv.get('sel')} seen={kv.get('seen')}" if ln == 'cycle' else f'op {r}'
-        if ln == 'cycle' and r != 'ok':
+        if ln == 'cycle' and r == 'untimely':
+            s = 'cycle untimely(an upload an earlier cycle chose is still QUEUED) ' + s
+        elif ln == 'cycle' and r != 'ok':
             s = 'cycle refused(no request pending)'
         if ' || ' in want:
             s += f" || p={kv.get('p')} slots={kv.get('slots')} q={kv.get('q')} known={kv.get('known')} | {ents}"
@@ -458,6 +596,30 @@ def _monitor(case: dict, impl: dict) -> list[Violation]:
                     add('C05-two-uploads-one-user',
                         f'upload {k} became {new} while upload(s) {same} of the same user {user_of[k]} are active',
                         {'active': act, 'log_index': idx}, 'at most one active upload per user')
+        elif tag == 'opline' and e[1].startswith('noticeEnd ') and e[2] == 'ok' and last_cycle is not None:
+            # The lingering task of upload k ends now.  If the latest cycle passed k over because of that task (and
+            # counted it as being served), k is still QUEUED, its user eligible and a slot free, then the queue must be
+            # looked at again: a cycle within OVERDUE (the job sleeps at most MAX_TRANSFER_MGMT_INTERVAL).
+            k = int(e[1].split()[1])
+            _, started_l, info_l = last_cycle
+            users_l = reported[last_cycle_idx]
+            u = user_of.get(k)
+            act = [j for j, s_ in state.items() if is_up.get(j) and s_ in ('INITIALIZING', 'UPLOADING')]
+            others = [j for j in info_l.get('inflight', []) if j != k and state.get(j) == 'QUEUED']
+            untouched = not any(x[0] == 'state' and x[1] == k for x in impl['log'][last_cycle_idx + 1:idx])
+            if (k in info_l.get('inflight', []) and k not in {j for kind, j in started_l if kind == 'T'}
+                    and state.get(k) == 'QUEUED' and untouched and u in users_l and users_l[u][0] != 'OFFLINE'
+                    and u not in {user_of[j] for j in act} and len(act) + len(others) < slots):
+                t0 = impl['times'][idx]
+                nxt = next((j for j in range(idx + 1, len(impl['log'])) if impl['log'][j][0] == 'cycle'), None)
+                t1 = impl['times'][nxt] if nxt is not None else impl['end']
+                if t1 - t0 > OVERDUE:
+                    add('C05-skipped-upload-forgotten',
+                        f'a cycle passed over queued upload {k} of {u} because an earlier task of it was still running; that '
+                        f'task ended, the upload stayed QUEUED with {slots - len(act) - len(others)} free slot(s), and '
+                        + (f'the next cycle ran {t1 - t0:.2f} s later' if nxt is not None else
+                           f'no cycle ran in the remaining {t1 - t0:.2f} s'),
+                        {'log_index': idx, 'passed_over_at': last_cycle_idx, 'before': info_l}, f'looked at again within {OVERDUE} s')
         elif tag == 'cycle':
             _, started, info = e
             last_cycle_idx = idx
@@ -505,9 +667,12 @@ def _monitor(case: dict, impl: dict) -> list[Violation]:
                     add('C05-offline-user-started', f'a cycle started upload {k} of offline user {u}' + lost(u), where,
                         'never')
             # eligible users that were left waiting
+            # (an upload in the middle of a state change — an abort waiting for the task it cancelled — is not waiting
+            # for a slot: the scheduler leaves it alone, the end of the transition requests the next cycle)
+            locked = set(info.get('locked', []))
             waiting = sorted({u for k, (u, d, st) in xs.items()
                               if d == 'U' and st == 'QUEUED' and users[u][0] != 'OFFLINE' and u not in served
-                              and u not in sel_users})
+                              and u not in sel_users and k not in locked})
             for k in sel:
                 if k not in xs:
                     continue
@@ -522,6 +687,30 @@ def _monitor(case: dict, impl: dict) -> list[Violation]:
                 add('C05-slot-left-idle', f'after a cycle {free - len(sel) - len(inflight)} slot(s) stay free while '
                     f'eligible user(s) {waiting} have queued uploads' + ''.join(lost(w) for w in waiting), where,
                     'work-conserving')
+    # An upload the LAST cycle passed over because a task of it was still running was counted above as being served.  If
+    # that task has ended without starting it — the upload is still QUEUED, nothing happened to it since, its user is
+    # eligible, a slot is free — then, one quiet second after the last event and with no cycle requested, nothing will
+    # ever start it: "a queued upload of an eligible user is eventually started while slots are free" fails.
+    if last_cycle is not None and not impl.get('final_pending'):
+        _, started_l, info_l = last_cycle
+        users_l = reported[last_cycle_idx]
+        sel_l = {k for kind, k in started_l if kind == 'T'}
+        running = set(impl.get('final_running', []))
+        act_end = [j for j, s_ in state.items() if is_up.get(j) and s_ in ('INITIALIZING', 'UPLOADING')]
+        chosen_end = [j for j, s_ in state.items() if is_up.get(j) and s_ == 'QUEUED' and j in running]
+        busy_end = {user_of[j] for j in act_end + chosen_end}
+        touched = {e[1] for e in impl['log'][last_cycle_idx + 1:] if e[0] == 'state'}
+        already = {v.observed.get('before') is info_l for v in vs if v.signature == 'C05-skipped-upload-forgotten'}
+        for k in ([] if True in already else info_l.get('inflight', [])):
+            u = user_of.get(k)
+            if (k not in sel_l and state.get(k) == 'QUEUED' and k not in running and k not in touched
+                    and u in users_l and users_l[u][0] != 'OFFLINE' and u not in busy_end
+                    and len(act_end) + len(chosen_end) < slots):
+                add('C05-skipped-upload-forgotten',
+                    f'the last cycle passed over queued upload {k} of {u} because an earlier task of it was still running; '
+                    f'the task has ended, the upload is still QUEUED, {slots - len(act_end) - len(chosen_end)} slot(s) are '
+                    f'free and no cycle is requested: nothing will start it',
+                    {'log_index': last_cycle_idx, 'before': info_l, 'active_at_end': act_end}, 'eventually started')
     # every change is followed by a scheduling cycle (the queue request is served): the job sleeps at most
     # MAX_TRANSFER_MGMT_INTERVAL (0.25 s) between two cycles, the case ends with 1 s in which the schedule does nothing
     times, end = impl['times'], impl['end']
@@ -608,7 +797,7 @@ class _Mirror:
         self.t = end
 
 
-def _gen_case(rng: random.Random, max_ops: int = 12) -> dict:
+def _gen_case(rng: random.Random, max_ops: int = 12, notice: bool = False) -> dict:
     """85 %: a contended population is set up first (more users with queued uploads than slots, mixed ranks, one to three
     uploads per user in interleaved arrival order); 15 %: free-form sequence from an empty manager (covers slots 0,
     single user, idle cycles).  Contended set-ups are `cold` (all queued inside one sleep of the management job: the
@@ -713,6 +902,11 @@ def _gen_case(rng: random.Random, max_ops: int = 12) -> dict:
         # go with the last one, comes back with the next request) while the server keeps reporting
         weights.update({'abort': 16, 'failX': 9, 'finish': 18, 'setUser': 18, 'requeue': 7, 'apiQueue': 5, 'addUpload': 18,
                         'privList': 3})
+    linger: set = set()          # uploads whose task still tries to report a failure to the peer (notice cases)
+    if notice:
+        # uploads break in mid-transfer, the report to the peer takes its time, the peer queues the file again meanwhile
+        weights.update({'failX': weights['failX'] + 12, 'started': weights['started'] + 6, 'requeue': weights['requeue'] + 10,
+                        'notice': 14})
     kinds = list(weights)
     for _ in range(n):
         dt = rng.choice([0, 0, 0, 0.05, 0.05, 0.02, 0.1, 0.3])
@@ -780,6 +974,15 @@ def _gen_case(rng: random.Random, max_ops: int = 12) -> dict:
                 st, fr, pr = (st if j == 0 else st0), (fr if j == 1 else fr0), (pr if j == 2 else pr0)
             ops.append(['setUser', u, st, fr, pr, dt])
             m.set_user(u, st, fr, pr)
+        elif kind == 'notice':
+            k = rng.choice(sorted(linger)) if linger and valid else (rng.randrange(len(m.xs) + 1) if m.xs else 0)
+            out = rng.choice(['ok', 'fail'])
+            ops.append(['notice', k, out, dt])
+            if k in linger:
+                linger.discard(k)
+                if out == 'fail' and m.xs[k][2] == 'FAILED':
+                    m.xs[k][2] = 'QUEUED'          # the downloader could not be told: the file is offered again
+                    m.pending = True
         else:
             src = {'started': ('INITIALIZING',), 'finish': ('UPLOADING',), 'failX': ('INITIALIZING', 'UPLOADING'),
                    'backToQueue': ('INITIALIZING',), 'requeue': ('FAILED', 'COMPLETE'),
@@ -787,6 +990,10 @@ def _gen_case(rng: random.Random, max_ops: int = 12) -> dict:
                    'abort': ('QUEUED', 'INITIALIZING', 'UPLOADING'),
                    'abortRace': ('UPLOADING', 'UPLOADING', 'INITIALIZING')}[kind]
             cands = by_state(*src)
+            if kind == 'failX' and notice and rng.random() < 0.7:
+                cands = by_state('UPLOADING') or cands        # a transfer that breaks, not a refused request
+            if kind == 'requeue' and notice and rng.random() < 0.7:
+                cands = [k for k in cands if k in linger] or cands
             if kind == 'abort' and kind_profile == 'tracking' and rng.random() < 0.7:
                 # an upload of a user who has another one that is not finalized, preferably not next to it in the list
                 def apart(k):
@@ -811,18 +1018,45 @@ def _gen_case(rng: random.Random, max_ops: int = 12) -> dict:
             else:
                 ops.append([kind, k, dt])
             if k < len(m.xs) and m.xs[k][1] == 'U' and m.xs[k][2] in src:
+                broke = notice and kind == 'failX' and m.xs[k][2] == 'UPLOADING'
                 m.xs[k][2] = dst
                 m.pending = True
+                if broke:
+                    linger.add(k)
+                    if rng.random() < 0.6:
+                        # the downloader has noticed the broken connection too and queues the file again while the
+                        # uploader's task is still trying to report the failure; some time later that attempt ends
+                        d2 = rng.choice([0, 0.05, 0.1, 0.3])
+                        m.tick(d2)
+                        ops.append(['requeue', k, d2])
+                        m.xs[k][2] = 'QUEUED'
+                        m.pending = True
+                        if rng.random() < 0.6:
+                            d3 = rng.choice([0.05, 0.1, 0.3, 0.3])
+                            m.tick(d3)
+                            ops.append(['notice', k, rng.choice(['ok', 'fail']), d3])
+                            linger.discard(k)
         if m.pending and m.t >= m.wake:
             m.cycle()
     case = {'slots': 0 if warm else slots, 'ops': ops,
             'kind': ('contended-' + ('warm-' if warm else 'cold-') if contended else 'free-') + kind_profile}
     # some cases on a slow server connection: the answer to the tracking request takes a while (or is lost); judged by
     # the monitor only
+    if notice:
+        case['notice'] = True
+        case['kind'] += '/slow-notice'
+        return case
     r = rng.random()
     if r < 0.12:
         case['net'] = {'reply_delay': rng.choice([0.01, 0.03, 0.06, 0.06, 0.2, 0.2, None])}
         case['kind'] += '/slow-server'
+    elif r < 0.27:
+        # a slow file system / busy executor: whatever a task asks the disk takes this long (a multiple of the
+        # management interval, or just one loop iteration), the same for every call or alternating
+        case['disk'] = {'delays': rng.choice([[0], [0.06], [0.12], [0.12], [0.3], [0.3], [0.3, 0], [0, 0.2], [0.06, 0.3, 0],
+                                              [0.5]]),
+                        'lookup': rng.choice([[0], [0], [0], [0.06], [0.3], [0, 0.3], [0.12, 0], None])}
+        case['kind'] += '/slow-disk'
     return case
 
 
@@ -862,6 +1096,26 @@ DIRECTED = [
     {'kind': 'directed-interleaved-finalized/slow-server', 'slots': 0, 'net': {'reply_delay': 0.06}, 'ops': [
         ['setUser', 0, 'OFFLINE', False, False, 0], ['addUpload', 0, 0], ['addUpload', 1, 0], ['addUpload', 0, 0],
         ['wait', 0.3], ['abort', 2, 0], ['wait', 0.3], ['setSlots', 4, 0], ['addUpload', 3, 0], ['wait', 0.5]]},
+    # an upload breaks in mid-transfer; while its task still tries to tell the peer, the peer queues the file again and a
+    # cycle passes it over (its task is running); then the attempt ends (delivered / failed): the upload must be started
+    {'kind': 'directed-requeued-while-failure-is-reported/slow-notice', 'slots': 1, 'notice': True, 'ops': [
+        ['addUpload', 0, 0], ['wait', 0.3], ['started', 0, 0], ['wait', 0.3], ['failX', 0, 0], ['wait', 0.3],
+        ['requeue', 0, 0], ['wait', 0.3], ['notice', 0, 'ok', 0], ['wait', 0.5]]},
+    {'kind': 'directed-requeued-while-failure-is-reported-2/slow-notice', 'slots': 1, 'notice': True, 'ops': [
+        ['addUpload', 0, 0], ['addUpload', 1, 0.3], ['started', 0, 0], ['wait', 0.3], ['failX', 0, 0], ['wait', 0.1],
+        ['started', 1, 0], ['finish', 1, 0.1], ['requeue', 0, 0.1], ['wait', 0.3], ['notice', 0, 'fail', 0], ['wait', 0.5]]},
+    # slow disk, the candidates are re-ordered after a decision: one slot, user0's upload is chosen; then a privileged
+    # user / a later user of equal rank queues a file and further cycles run while the disk is busy
+    {'kind': 'directed-reorder-after-decision/slow-disk', 'slots': 1, 'disk': {'delays': [0.3], 'lookup': [0]}, 'ops': [
+        ['privList', [1], 0], ['setUser', 1, 'ONLINE', False, True, 0], ['addUpload', 0, 0], ['wait', 0.1],
+        ['addUpload', 1, 0], ['wait', 0.1], ['addUpload', 2, 0], ['wait', 0.6], ['started', 0, 0], ['finish', 0, 0.1],
+        ['wait', 0.3]]},
+    {'kind': 'directed-later-arrival-after-decision/slow-disk', 'slots': 1, 'disk': {'delays': [0.12, 0], 'lookup': [0]}, 'ops': [
+        ['addUpload', 0, 0], ['wait', 0.06], ['addUpload', 1, 0], ['wait', 0.06], ['addUpload', 2, 0], ['wait', 0.6]]},
+    # slow disk, an earlier upload of the same user comes back to the queue after the decision for a later one
+    {'kind': 'directed-earlier-upload-requeued-after-decision/slow-disk', 'slots': 2, 'disk': {'delays': [0.3], 'lookup': [0]}, 'ops': [
+        ['addUpload', 0, 0], ['wait', 0.7], ['failX', 0, 0], ['wait', 0.5], ['addUpload', 0, 0], ['wait', 0.1],
+        ['requeue', 0, 0], ['wait', 0.1], ['addUpload', 1, 0], ['wait', 1.0]]},
 ]
 
 
@@ -931,6 +1185,11 @@ def _features(case: dict, impl: dict) -> set:
         feats.add('two-cycles-started-uploads')
     if any(op[-1] == SAME_STEP for op in case['ops']):
         feats.add('two-events-in-one-loop-step')
+    if case.get('disk'):
+        feats.add('slow-disk')
+        # an upload that became active while other users' uploads were queued behind it and the disk was slow
+        if any(e[0] == 'state' and e[3] == 'UPLOADING' for e in impl['log']):
+            feats.add('slow-disk-upload-started')
     racing = False
     for e in impl['log']:
         if e[0] == 'opline':
@@ -972,14 +1231,24 @@ class C05(Property):
             'server (reported iff the client watches the user) + friend list, privileged list, a peer connection opening / '
             'closing, two events within one loop step (30 % after an API-level op), each preceded by a virtual '
             'delay from {0, 0.02, 0.05 (= the management timer), 0.1, 0.3} s; 12 % of the cases run on a slow server '
-            'connection (answer to the tracking request after 0.01..0.2 s or never; monitor only); management cycles are run '
-            'by the real job and logged where they happen; derived from VERIF_SEED. A case is non-trivial when at least one '
+            'connection (answer to the tracking request after 0.01..0.2 s or never; monitor only), 15 % on a slow file '
+            'system / busy executor (every call the library hands to the executor, and independently every shares look-up, '
+            'takes one loop iteration .. 0.5 s of virtual time, constant or alternating; monitor only), 8 % with a peer that '
+            'is hard to reach (the PeerUploadFailed report of a broken upload hangs until a `notice` op ends the attempt, '
+            'delivered or not; transfers break more often, the peer queues the broken file again while the report hangs; '
+            'exact correspondence: model ops breakX / noticeEnd); management cycles are run '
+            'by the real job and logged where they happen, the first step of every initialize-upload task (QUEUED -> '
+            'INITIALIZING) is fed to the model as `record` where it happens; derived from VERIF_SEED. A case is non-trivial when at least one '
             'cycle had more eligible users than free slots with a free slot to give (a ranking decision) and at least two '
             'cycles started uploads; distinct = distinct canonical case')
     assumptions = [
-        'the management job sleeps >= MIN_TRANSFER_MGMT_INTERVAL between two cycles and `initialize()` of a freshly '
-        'created initialize-upload task is not delayed by a held state lock, so no cycle sees a selected upload still '
-        'QUEUED (checked on every real cycle: a running task on a QUEUED upload is reported as a granularity break)',
+        'Timely (hypothesis of the schedule theorems C05_one_per_user / C05_slot_invariant / C05_work_conserving, '
+        'necessary: C05_untimely_cycle_breaks_*): no management cycle is served between the decision of a cycle (task '
+        'created) and its record (first step of the task: QUEUED -> INITIALIZING). In the client this is a fact of the '
+        'schedule — the job sleeps >= MIN_TRANSFER_MGMT_INTERVAL between two cycles and the first statement of '
+        '_initialize_upload is `state.initialize()` on an uncontended lock — and it is checked on every real cycle, with '
+        'fast and slow file system / shares look-ups / server: a running task on a QUEUED upload at a cycle is reported '
+        '(granularity break; the driver answers `untimely`)',
         'shares manager and peer network are scripted stubs; the peer side of an upload is the schedule; the user manager '
         'is the real one, the server it talks to is simulated: it answers every AddUser with the truth, reports a change '
         'of a user iff the client has the user on its watch list (AddUser sent, RemoveUser not), in order',
@@ -992,16 +1261,26 @@ class C05(Property):
         'attributes; in the full client the user manager\'s 1 s job announces friend-list changes); the reading only '
         'demands work conservation after a cycle',
         'TransferManager.queue is only called from the states its docstring lists',
+        'an upload a cycle passes over because an earlier task of it is still running (it reports a failure to the '
+        'downloader) counts as being served until that task ends; then a cycle has to follow within 0.3 s (monitor: '
+        'C05-skipped-upload-forgotten; model: watched / C05_passed_over_is_looked_at_again); an upload in the middle of '
+        'a state change (state lock held: an abort waiting for the task it cancelled) is not waiting for a slot; a case '
+        'in which an abort hits an upload with a lingering task is judged by the monitor only (the model has no lock)',
     ]
-    modelled = ('manage_transfers (upload part), _get_queued_transfers (upload list), _prioritize_uploads, '
+    modelled = ('manage_transfers (upload part: the decision = tasks created for uploads[:free] without a running task, '
+                'op `cycle`) and the first step of _initialize_upload (the record, op `record`) as two steps with any '
+                'event in between, _get_queued_transfers (upload list), _prioritize_uploads, '
                 'get_free_upload_slots, request_management_cycle/_management_job coalescing (cyclePending), the upload '
                 'state changes QUEUED/INITIALIZING/UPLOADING/COMPLETE/FAILED/ABORTED incl. abort, peer re-queue, API '
-                'queue; manage_user_tracking + UserManager.get_user_object/track_user/untrack_user + the weak `_users` '
+                'queue; the lingering task of a broken upload (_upload_file reporting PeerUploadFailed: ops breakX / '
+                'noticeEnd incl. the re-offer FAILED -> QUEUED when the report fails) and the second look at an upload a '
+                'cycle passed over because of it (done callback: watched); '
+                'manage_user_tracking + UserManager.get_user_object/track_user/untrack_user + the weak `_users` '
                 'dictionary at cycle granularity (who is held, what status / privilege the held object carries after '
                 'AddUser.Response / GetUserStatus.Response / PrivilegedUsers.Response). Exercised, not modelled: the stages '
                 'inside _initialize_upload/_upload_file (collapsed to their state change), the tracking tasks / retry '
-                'timers / AddUser-RemoveUser traffic (C15), slow answers of the server, downloads beyond "a queued '
-                'download takes no upload slot"')
+                'timers / AddUser-RemoveUser traffic (C15), slow answers of the server, slow file system / executor, '
+                'downloads beyond "a queued download takes no upload slot"')
 
     def regenerate(self):
         from translate import sched_constants
@@ -1011,7 +1290,7 @@ class C05(Property):
         rng = random.Random(f'C05-{seed}')
         n = (1800 if tier == 'quick' else 40000) * widen
         mx = 12 if tier == 'quick' else 24
-        return list(DIRECTED) + [_gen_case(rng, rng.choice([12, mx])) for _ in range(n)]
+        return list(DIRECTED) + [_gen_case(rng, rng.choice([12, mx]), notice=rng.random() < 0.08) for _ in range(n)]
 
     def correspondence(self, seed, tier, model_ok, widen=1):
         res = KResult()
@@ -1025,7 +1304,7 @@ class C05(Property):
         if model_ok:
             lines, spans = [], []
             for c, io in zip(cases, impl):
-                if c.get('net'):                     # slow server connection: monitor only
+                if c.get('net') or c.get('disk') or io.get('inexact'):    # slow server connection / slow disk: monitor only
                     scripts.append(None)
                     spans.append((len(lines), 0))
                     continue
@@ -1052,11 +1331,22 @@ class C05(Property):
             for f in feats:
                 res.count('feature:' + f)
             if 'ranking-decided' in feats and 'two-cycles-started-uploads' in feats:
-                res.nontrivial_keys.add(common.sha([c['slots'], c['ops'], c.get('net')]))
-            for g in io['granularity']:
-                res.disagreements.append(Disagreement(c, g, None, 'granularity: ' + g[0]))
+                res.nontrivial_keys.add(common.sha([c['slots'], c['ops'], c.get('net'), c.get('disk'), c.get('notice')]))
+            for g in _untimely(io):
+                res.disagreements.append(Disagreement(c, g, None, 'Timely broken: ' + g[0]))
+            if not c.get('notice'):              # (the rig's own check does not tell a chosen upload from a lingering task)
+                for g in io['granularity']:
+                    res.disagreements.append(Disagreement(c, g, None, 'granularity: ' + g[0]))
             if c.get('net'):
                 res.count('monitor-only (slow server connection)')
+            if c.get('disk'):
+                res.count('monitor-only (slow disk)')
+            if c.get('notice'):
+                res.count('slow failure notice')
+            if io.get('inexact'):
+                res.count('monitor-only (abort of an upload with a lingering task)')
+            res.count('records (QUEUED -> INITIALIZING of an upload)',
+                      sum(1 for e in io['log'] if e[0] == 'state' and e[2] == 'QUEUED' and e[3] == 'INITIALIZING'))
             if model is not None and scripts[i] is not None:
                 res.traces_validated += 1
                 ls, obs = scripts[i]
